@@ -288,7 +288,17 @@ type c05ChildResult struct {
 	Points   int
 }
 
-func c05ChildMain(arg string) int {
+func c05ChildMain(arg string) (code int) {
+	defer func() {
+		if r := recover(); r != nil {
+			if he, ok := r.(mc.HarnessError); ok {
+				fmt.Fprintln(os.Stderr, "HARNESS-ERROR:", he.Msg)
+				code = 12
+				return
+			}
+			panic(r)
+		}
+	}()
 	v, _ := strconv.Atoi(arg)
 	runtime.GOMAXPROCS(1)
 	defaultLogger()
@@ -388,6 +398,9 @@ func c05FirstUse(x *mc.Exec) {
 		x.Fail("race|"+a+"|"+b, name+": data race between the first calls of a process", det)
 		x.Outcome = "race"
 		return
+	}
+	if code == 12 {
+		panic(mc.HarnessError{Msg: "c05 child: " + truncStr(stderr.String(), 2000)})
 	}
 	if code != 0 || res == nil {
 		det["stderr"] = truncStr(stderr.String(), 6000)
